@@ -69,6 +69,11 @@ var pipesimAssume = []string{
 
 var rawMode bool
 
+// coverOut: --cover <file>: build the worker with statement coverage of the
+// staged library and report what no simulated run executed (a reach measure
+// used while widening workloads; never part of a verdict).
+var coverOut string
+
 var props = map[string]propCfg{
 	"C05": {Engine: "pipesim", Level: "exploration", QuickRandom: 150000, QuickWall: 20, ThoroughRand: 40000000, ThoroughWall: 540,
 		Rule: "one case = one simulated run (plan + schedule tape). Enumerated: every sequential stage x capacity {0,1,2,5} x input length 0..3 (thorough 0..5) x function variants x 6 base schedules; then seeded random plans (stage, length, capacity, Take n, function, paces, policy, preemption). " + distinctRule},
@@ -125,7 +130,12 @@ func main() {
 	keep := fl.Bool("keep", false, "keep the scratch directory")
 	noEvidence := fl.Bool("no-evidence", false, "do not write the evidence file")
 	raw := fl.Bool("uninstrumented", false, "cross-check: stage the library WITHOUT instrumentation (library goroutines run under the Go scheduler inside the bubble; only environment tasks are scheduled; not replayable; never writes evidence)")
+	cover := fl.String("cover", "", "write merged library statement coverage of the simulated runs to this file and list blocks never executed (implies --no-evidence)")
 	fl.Parse(os.Args[2:])
+	coverOut = *cover
+	if coverOut != "" {
+		*noEvidence = true
+	}
 	if prop == "selftest" {
 		selftest(fl.Args())
 		return
@@ -189,6 +199,9 @@ func main() {
 		outs = append(fanout(st, prop, seed, thorough, *workers, random, wallLimit), isoOuts...)
 	}
 	code := report(st, prop, cfg, *tier, seed, outs, start, !*noEvidence)
+	if coverOut != "" {
+		mergeCover(st)
+	}
 	st.cleanup()
 	os.Exit(code)
 }
@@ -333,7 +346,11 @@ func stage(engine string, keep bool) *staged {
 	}
 	os.WriteFile(filepath.Join(dir, "go.sum"), sum, 0o644)
 	st.worker = filepath.Join(dir, "worker.test")
-	cmd := exec.Command(goBin, "test", "-c", "-o", st.worker, "-modfile="+filepath.Join(dir, "go.mod"), testPkg)
+	args := []string{"test", "-c", "-o", st.worker, "-modfile=" + filepath.Join(dir, "go.mod")}
+	if coverOut != "" {
+		args = append(args, "-cover", "-coverpkg="+pipePath+","+pipePath+"/fork,github.com/fogfish/golem/duct,github.com/fogfish/golem/maplike/skiplist")
+	}
+	cmd := exec.Command(goBin, append(args, testPkg)...)
 	cmd.Dir = filepath.Join(verif, "sim")
 	cmd.Env = goEnv()
 	if outp, err := cmd.CombinedOutput(); err != nil {
@@ -357,7 +374,11 @@ func stageMaplike(dir string, h io.Writer) {
 
 func runWorker(st *staged, job driver.WorkerIn) (*driver.WorkerOut, string, int) {
 	b, _ := json.Marshal(job)
-	cmd := exec.Command(st.worker, "-test.run", "^TestWorker$", "-test.timeout", "0", "-test.count", "1")
+	wargs := []string{"-test.run", "^TestWorker$", "-test.timeout", "0", "-test.count", "1"}
+	if coverOut != "" {
+		wargs = append(wargs, "-test.coverprofile="+job.Out+".cov")
+	}
+	cmd := exec.Command(st.worker, wargs...)
 	cmd.Env = append(os.Environ(), "VERIF_JOB="+string(b))
 	outp, err := cmd.CombinedOutput()
 	code := 0
@@ -844,4 +865,75 @@ func selftest(args []string) {
 		die(2, "determinism self-test FAILED for %s: %d of %d processes disagree", prop, bad, procs)
 	}
 	fmt.Printf("determinism self-test %s: %d runs x %d processes (GOMAXPROCS 1/4/16) identical\n", prop, runs, procs)
+}
+
+// mergeCover unions the workers' coverage profiles and lists the library
+// blocks that no run executed, with their (instrumented) source text.
+func mergeCover(st *staged) {
+	files, _ := filepath.Glob(filepath.Join(st.dir, "*.cov"))
+	count := map[string]int{}
+	stmts := map[string]int{}
+	for _, f := range files {
+		b, err := os.ReadFile(f)
+		if err != nil {
+			continue
+		}
+		for _, ln := range strings.Split(string(b), "\n") {
+			fs := strings.Fields(ln)
+			if len(fs) != 3 || strings.HasPrefix(ln, "mode:") {
+				continue
+			}
+			n, _ := strconv.Atoi(fs[1])
+			c, _ := strconv.Atoi(fs[2])
+			stmts[fs[0]] = n
+			count[fs[0]] += c
+		}
+	}
+	keys := make([]string, 0, len(count))
+	for k := range count {
+		keys = append(keys, k)
+	}
+	sort.Strings(keys)
+	var sb strings.Builder
+	tot, cov := 0, 0
+	srcCache := map[string][]string{}
+	for _, k := range keys {
+		tot += stmts[k]
+		if count[k] > 0 {
+			cov += stmts[k]
+			continue
+		}
+		// k = importpath/file.go:L.C,L.C
+		i := strings.LastIndex(k, ":")
+		file, rng := k[:i], k[i+1:]
+		var l0, c0, l1, c1 int
+		fmt.Sscanf(rng, "%d.%d,%d.%d", &l0, &c0, &l1, &c1)
+		local := ""
+		switch {
+		case strings.HasPrefix(file, pipePath+"/"):
+			local = filepath.Join(st.dir, "pipe", strings.TrimPrefix(file, pipePath+"/"))
+		case strings.HasPrefix(file, "github.com/fogfish/golem/duct/"):
+			local = filepath.Join(st.dir, "duct", strings.TrimPrefix(file, "github.com/fogfish/golem/duct/"))
+		case strings.HasPrefix(file, "github.com/fogfish/golem/maplike/"):
+			local = filepath.Join(st.dir, "maplike", strings.TrimPrefix(file, "github.com/fogfish/golem/maplike/"))
+		}
+		lines, ok := srcCache[local]
+		if !ok {
+			b, _ := os.ReadFile(local)
+			lines = strings.Split(string(b), "\n")
+			srcCache[local] = lines
+		}
+		fmt.Fprintf(&sb, "UNCOVERED %s (%d stmts)\n", k, stmts[k])
+		for l := l0; l <= l1 && l <= len(lines) && l < l0+6; l++ {
+			fmt.Fprintf(&sb, "    %4d: %s\n", l, lines[l-1])
+		}
+	}
+	fmt.Fprintf(&sb, "TOTAL statements %d covered %d (%.1f%%)\n", tot, cov, 100*float64(cov)/float64(max(tot, 1)))
+	os.WriteFile(coverOut, []byte(sb.String()), 0o644)
+	var raw strings.Builder
+	for _, k := range keys {
+		fmt.Fprintf(&raw, "%s %d %d\n", k, stmts[k], count[k])
+	}
+	os.WriteFile(coverOut+".raw", []byte(raw.String()), 0o644)
+	fmt.Printf("coverage: %d of %d library statements executed by simulated runs; details in %s\n", cov, tot, coverOut)
 }
